@@ -247,6 +247,7 @@ def run(ctx):
   r6_shared_tables(ctx)
   r7_no_cross_subgraph_id_containers(ctx)
   _r3(ctx)
+  shared.rule_performer_translation(ctx, 'C19.R9')
 
 
 def _relabel(ctx, old, new, title, fn):
